@@ -1,5 +1,35 @@
 import AgdbCrash.Model.Driver
+import AgdbCrash.Model.Open
 open AgdbCrash
+
+def hexVal (c : Char) : Option Nat :=
+  if c.isDigit then some (c.toNat - '0'.toNat)
+  else if 'a' ≤ c && c ≤ 'f' then some (c.toNat - 'a'.toNat + 10)
+  else none
+
+def unhex (s : String) : Option (List Nat) :=
+  if s = "-" then some [] else
+  let rec go (cs : List Char) (acc : List Nat) : Option (List Nat) :=
+    match cs with
+    | [] => some acc.reverse
+    | [_] => none
+    | a :: b :: rest =>
+      match hexVal a, hexVal b with
+      | some x, some y => go rest ((x * 16 + y) :: acc)
+      | _, _ => none
+  go s.toList []
+
+/-- `open <variant> <data hex> <log hex>` -/
+def handleOpen (l : String) : String :=
+  match l.splitOn " " with
+  | ["open", v, d, w] =>
+    let variant : Option Open.Variant :=
+      if v = "file" then some .file else if v = "mmap" then some .mmap
+      else if v = "memory" then some .memory else none
+    match variant, unhex d, unhex w with
+    | some v, some d, some w => (Open.openStorage true v d w).line
+    | _, _, _ => "bad-op"
+  | _ => "bad-op"
 
 structure MState where
   prop : String := ""
@@ -20,6 +50,7 @@ def processLine (m : MState) (line : String) : MState × String :=
     if m.prop = "C03" || m.prop = "C02" || m.prop = "C32" then
       let (tx, out) := Driver.handle m.tx l
       ({ m with tx := tx }, out)
+    else if m.prop = "C07" then (m, handleOpen l)
     else (m, "bad-op")
 
 partial def loop (h : IO.FS.Stream) (out : IO.FS.Stream) (m : MState) : IO Unit := do
